@@ -25,7 +25,7 @@ PY = "/venv/bin/python"
 def run(cmd, cwd, timeout=1800, env=None):
     e = dict(os.environ)
     e["MPLBACKEND"] = "Agg"
-    e.pop("PYTHONPATH", None)
+    e["PYTHONPATH"] = cwd          # demos live outside the worktree: make sure the worktree's package is the one imported
     if env:
         e.update(env)
     p = subprocess.run(cmd, cwd=cwd, capture_output=True, text=True, timeout=timeout, env=e)
